@@ -19,6 +19,12 @@ pub trait GT: Copy + 'static {
     const RAW: bool;
     fn from_elems(e: &[Self::S]) -> Self;
     fn elems(&self) -> Vec<Self::S>;
+    /// words of hidden content for types that cannot be built from a raw image (BVec3A: the padding lane of the mask)
+    const HIDDEN: usize = 0;
+    /// the same value with that hidden content, built through a public route that sets it
+    fn from_elems_hidden(e: &[Self::S], _h: u64) -> Self {
+        Self::from_elems(e)
+    }
 }
 
 macro_rules! impl_gt {
@@ -51,6 +57,35 @@ macro_rules! impl_gt {
             }
             fn elems(&self) -> Vec<$S> {
                 self.to_cols_array().to_vec()
+            }
+        }
+    };
+    (boolarr3a, $T:ident, $S:ty, $N:expr, $lay:ident) => {
+        impl GT for glam::$T {
+            type S = bool;
+            const NAME: &'static str = stringify!($T);
+            const N: usize = $N;
+            const LAY: Lay = Lay::$lay;
+            const RAW: bool = false;
+            const HIDDEN: usize = 1;
+            fn from_elems(e: &[bool]) -> Self {
+                let a: [bool; $N] = core::array::from_fn(|i| e[i]);
+                glam::$T::from_array(a)
+            }
+            fn from_elems_hidden(e: &[bool], h: u64) -> Self {
+                // what a comparison of two Vec3A leaves behind: the padding lane compares true or false on its own;
+                // every second case goes through `!` (which flips the padding lane too)
+                let f = |b: bool| if b { 1.0f32 } else { 0.0 };
+                let one = glam::Vec3A::from_vec4(glam::Vec4::ONE);
+                if h & 2 == 0 {
+                    glam::Vec3A::from_vec4(glam::Vec4::new(f(e[0]), f(e[1]), f(e[2]), f(h & 1 == 1))).cmpeq(one)
+                } else {
+                    !glam::Vec3A::from_vec4(glam::Vec4::new(f(!e[0]), f(!e[1]), f(!e[2]), f(h & 1 == 1))).cmpeq(one)
+                }
+            }
+            fn elems(&self) -> Vec<bool> {
+                let a: [bool; $N] = (*self).into();
+                a.to_vec()
             }
         }
     };
@@ -126,7 +161,7 @@ macro_rules! c19_types {
         $cb!(BVec2, bool, 2, boolarr, Packed, nobm, nork, nomint, ser);
         $cb!(BVec3, bool, 3, boolarr, Packed, nobm, nork, nomint, ser);
         $cb!(BVec4, bool, 4, boolarr, Packed, nobm, nork, nomint, ser);
-        $cb!(BVec3A, bool, 3, boolarr, Packed, nobm, nork, nomint, ser_simd);
+        $cb!(BVec3A, bool, 3, boolarr3a, Packed, nobm, nork, nomint, ser_simd);
         $cb!(BVec4A, bool, 4, boolarr, Packed, nobm, nork, nomint, ser_simd);
     };
 }
@@ -393,7 +428,7 @@ fn pads_of<T: GT>() -> usize {
     if T::RAW {
         gen::pad_words(core::mem::size_of::<T>().max(T::N * <T::S as Sc>::SIZE), T::N, <T::S as Sc>::SIZE)
     } else {
-        0
+        T::HIDDEN
     }
 }
 /// byte image of the case: elements at their offsets, padding bytes from the pad words
@@ -418,6 +453,9 @@ fn make<T: GT>(w: &[u64], e: &[T::S], t: &mut Tally) -> Result<T, Fail> {
     if T::RAW && w.len() > T::N && core::mem::size_of::<T>() > T::N * <T::S as Sc>::SIZE {
         t.class("value:from-raw-image-with-padding-content");
         Ok(raw_value::<T>(&raw_image::<T>(w, e)?))
+    } else if !T::RAW && T::HIDDEN > 0 && w.len() > T::N {
+        t.class("value:mask-built-by-a-comparison(hidden lane set or clear)");
+        Ok(T::from_elems_hidden(e, w[T::N]))
     } else {
         Ok(T::from_elems(e))
     }
